@@ -17,8 +17,16 @@ REGISTRY = dict(
           "[start,end]; the bracket keeps f(a)f(b)<=0 and never widens; on return |b-a|<tol with a sign change in the "
           "initial interval; the one-at-a-time protocol equals the find_root_brents loop; termination with an explicit "
           "bound whenever bisection is forced (0<start, end-start<2*eps*start: the solver's eps=1 calls away from 0). "
-          "PARTIAL: unguarded termination (TerminatesAlways) is stated, not proved. Model tied to the code by bit-exact "
-          "binary64 correspondence (whole runs and single steps from arbitrary states)."),
+          "PARTIAL: unguarded termination (TerminatesAlways) is stated, not proved (and refuted in C19Term). Model tied to the code by bit-exact "
+          "binary64 correspondence (whole runs and single steps from arbitrary states). "
+          "Props/C19Term.lean adds: for 0<start, eps>=1/2, end<=start*(2eps)^m, end-start<tol*2^n every ordinate sequence "
+          "converges within n(2m+2) iterations (interpolated steps allowed; TerminatesAlways holds for 0<start, eps>1/2 in "
+          "Archimedean fields); proved refutations: for eps=1/4 on [10,1000] no bound in (bracket,eps,tol) exists "
+          "(no_uniform_bound_eps_quarter, every N), and with 0 inside the bracket a smooth increasing f makes the loop run for "
+          "ever at eps=1 (creeping_never_terminates), so TerminatesAlways is FALSE (terminatesAlways_false); the bound is "
+          "same with 0<=start (brackets touching 0): end<=(tol/2)(2eps)^m gives n(2m+5) iterations (within_nonneg_bracket, "
+          "terminates_nonneg); the bounds are checked on every real run they apply to (incl. adversarial overshoot/greedy "
+          "tapes). Still open: termination without a uniform bound for eps<1/2."),
     note=("Trusted: Lean kernel + propext/Classical.choice/Quot.sound; Mathlib; hand-written Model.Brent tied by "
           "correspondence only; binary64 rounding not in the theorems; termination outside the forced-bisection guard is "
           "validated by running the real class, not proved."),
@@ -28,7 +36,52 @@ REGISTRY = dict(
 
 PROP_MODULE = "EmuVerif.Props.C19"
 AUDIT = "Audit/C19.lean"
+TERM_MODULE = "EmuVerif.Props.C19Term"
+TERM_AUDIT = "Audit/C19Term.lean"
 MAX_ITERS = 400
+# Rounding allowance of the iteration-count oracle. The theorem (`within_pos_bracket`) is about exact
+# arithmetic; in binary64 each of the <= 400 iterations perturbs the bracket ends by a relative 2^-52, so the
+# width after k halvings and the ratio end/start are those of an exact run on a bracket perturbed by less than
+# 400 * 2^-51 < 2^-42. The exponents m, n are therefore computed for ratio and width enlarged by (1 + 2^-30).
+BOUND_SLACK = 2.0 ** -30
+
+
+def _least_pow(base, factor, target, cap):
+    """least k with target <= base * factor^k (None above cap)"""
+    k, p = 0, base
+    while p < target:
+        p *= factor
+        k += 1
+        if k > cap:
+            return None
+    return k
+
+
+def iter_bound(start, stop, eps, tol):
+    """(N, m, n, which): the smaller of the two proved iteration bounds (Props/C19Term.lean), both with
+    BOUND_SLACK, n least with stop - start < tol 2^n:
+      pos    – `within_pos_bracket`:    0 < start,  m least with stop <= start (2 eps)^m,      N = n(2m+2) = iterBound m n
+      nonneg – `within_nonneg_bracket`: 0 <= start, m least with stop <= (tol/2) (2 eps)^m,    N = n(2m+5) = iterBound0 m n
+    None when neither applies (start < 0, 2 eps <= 1, or m absurdly large because 2 eps is barely above 1)."""
+    if any(v != v or abs(v) == float("inf") for v in (start, stop, eps, tol)):
+        return None
+    if not (start >= 0 and stop >= start and 2 * eps > 1 and tol > 0):
+        return None
+    width, n, q = (stop - start) * (1 + BOUND_SLACK), 0, tol
+    while not width < q:
+        q *= 2
+        n += 1
+        if n > 2200:
+            return None
+    cands = []
+    if start > 0:
+        m = _least_pow(1.0, 2 * eps, stop / start * (1 + BOUND_SLACK), 2000)
+        if m is not None:
+            cands.append((n * (2 * m + 2), m, n, "pos"))
+    m = _least_pow(tol / 2, 2 * eps, stop * (1 + BOUND_SLACK), 2000)
+    if m is not None:
+        cands.append((n * (2 * m + 5), m, n, "nonneg"))
+    return min(cands) if cands else None
 
 
 # ------------------------------------------------------------------ generators
@@ -51,7 +104,9 @@ def _functions(rng):
 
 def gen_case(rng, i):
     """One correspondence case: bracket, eps, tol and an ordinate source."""
-    mode = rng.choice(["func", "func", "tape", "tape_signs", "solver", "reject"])
+    mode = rng.choice(["func", "func", "tape", "tape_signs", "solver", "reject", "posbound"])
+    if mode == "posbound":
+        return gen_posbound(rng)
     eps = rng.choice([1e-6, 1.0, 1e-3, 0.25, 1e-9])
     tol = rng.choice([1e-6, 1.0, 1e-3, 1e-9, 0.5])
     if mode == "solver":
@@ -62,7 +117,8 @@ def gen_case(rng, i):
         thr = rng.random()
         r = rng.uniform(start, stop)
         rate = 10 ** rng.uniform(-4, 0)
-        f = lambda t, r=r, rate=rate: math.exp(-rate * (t - r)) - 1.0
+        # exponent clamped: exp(709.8) overflows (a harness OverflowError is not a finding about the class)
+        f = lambda t, r=r, rate=rate: math.exp(min(-rate * (t - r), 700.0)) - 1.0
         return dict(mode=mode, start=start, stop=stop, eps=eps, tol=tol, f=f, fname="gap")
     if mode == "reject":
         start, stop = rng.uniform(-5, 5), rng.uniform(-5, 5)
@@ -96,6 +152,83 @@ def gen_case(rng, i):
         if rng.random() < 0.3:
             tape[rng.randrange(n)] = 0.0
     return dict(mode=mode, start=start, stop=stop, eps=eps, tol=tol, fs=fs, fe=fe, tape=tape)
+
+
+def gen_posbound(rng):
+    """Brackets with 0 <= start and eps > 1/2 (where C19Term's iteration bounds apply) and ordinate tapes built
+    to make the run as long as possible:
+      overshoot – alternating signs, each ordinate R times the previous one in magnitude, all tiny (secant branch):
+                  every new point replaces b and is swapped to a, so |c-d| stays of the order of the width and only
+                  the `delta` clauses stop the run of interpolated steps (this is the tape of
+                  `C19Term.overshoot_run_eps_quarter`, scaled to the binary64 range);
+      greedy    – at every step the ordinate (among ~50 candidates) after which the next step is again an
+                  interpolation and the bracket is widest, found on copies of the real object;
+      random    – random signs and magnitudes relative to the stored ordinates."""
+    for _ in range(200):
+        eps = rng.choice([1.0, 1.0, 1.0, 0.75, 2.0, 0.51, 8.0])
+        tol = rng.choice([1.0, 1.0, 0.5, 1e-3])
+        start = rng.choice([10.0, 1.0, 0.0, 0.0, float(rng.randint(1, 200)), rng.uniform(0.01, 50)])
+        stop = (start * rng.choice([3.0, 10.0, 100.0, 1 + 10 ** rng.uniform(-1, 2.5)]) if start > 0
+                else rng.choice([10.0, 100.0, 1000.0, 10 ** rng.uniform(0, 3)]))
+        nb = iter_bound(start, stop, eps, tol)
+        if nb is not None and 1 <= nb[0] <= MAX_ITERS - 20:
+            break
+    N = nb[0]
+    kind = rng.choice(["overshoot", "overshoot", "greedy", "greedy", "random"])
+    sgn = rng.choice([1.0, -1.0])
+    if kind == "overshoot":
+        # products of consecutive ordinates must not underflow (`fa * ordinate < 0`): magnitudes in [2^-520, 1)
+        q = max(1, min(10, 500 // (N + 4)))
+        R, tiny = 2.0 ** q, 2.0 ** -520
+        big_first = rng.random() < 0.5
+        fs, fe = (sgn * R * tiny, -sgn * tiny) if big_first else (-sgn * tiny, sgn * R * tiny)
+        fa0 = fs if big_first else fe
+        tape = [fa0 * (-R) ** (k + 1) for k in range(N + 2)]
+    elif kind == "random":
+        fs, fe = sgn * 10 ** rng.uniform(-8, 0), -sgn * 10 ** rng.uniform(-8, 0)
+        tape = [rng.choice([-1.0, 1.0]) * 10 ** rng.uniform(-9, 1) for _ in range(N + 2)]
+    else:
+        fs, fe = sgn * 2.0 ** -rng.randint(0, 500), -sgn * 2.0 ** -rng.randint(0, 500)
+        tape = _greedy_tape(rng, start, stop, fs, fe, eps, tol, N + 2)
+    return dict(mode="posbound", kind=kind, start=start, stop=stop, eps=eps, tol=tol, fs=fs, fe=fe, tape=tape)
+
+
+def _greedy_tape(rng, start, stop, fs, fe, eps, tol, nmax):
+    import copy
+    from emu_base.math.brents_root_finding import BrentsRootFinder
+    try:
+        rf = BrentsRootFinder(start=start, end=stop, f_start=fs, f_end=fe, epsilon=eps)
+    except AssertionError:
+        return [1.0]
+    tape = []
+    factors = [2.0 ** -40, 2.0 ** -10, 2.0 ** -3, 0.5, 0.99, 1.0, 1.01, 2.0, 2.0 ** 6, 2.0 ** 10, 2.0 ** 40]
+    for _ in range(nmax):
+        if rf.is_converged(tol):
+            break
+        try:
+            x = rf.get_next_abscissa()
+        except ZeroDivisionError:
+            break
+        base = [abs(rf.fa), abs(rf.fb), abs(rf.fc)]
+        cands = [s * b * f for s in (1.0, -1.0) for b in base for f in factors]
+        cands += [rng.choice([-1.0, 1.0]) * rng.choice(base) * 2.0 ** rng.uniform(-30, 30) for _ in range(8)]
+        cands = [y for y in cands if y == y and 2.0 ** -520 < abs(y) < 1e150]
+        best, best_score = None, None
+        for y in cands:
+            r2 = copy.copy(rf)
+            r2.provide_ordinate(x, y)
+            w = abs(r2.b - r2.a)
+            try:
+                r2.get_next_abscissa()
+            except ZeroDivisionError:
+                continue
+            score = (not r2.bisection, w)
+            if best_score is None or score > best_score:
+                best, best_score = y, score
+        y = best if best is not None else (rng.choice(cands) if cands else 1.0)
+        rf.provide_ordinate(x, y)
+        tape.append(y)
+    return tape or [1.0]
 
 
 # ------------------------------------------------------------------ real code
@@ -247,6 +380,10 @@ def oracle(case, status, xs, ys, fin):
         return f"sign change lost: f(a)={fa!r} f(b)={fb!r}"
     if status == "1" and not abs(b - a) < case["tol"]:
         return "reported converged with |b-a| >= tol"
+    nb = iter_bound(case["start"], case["stop"], case["eps"], case["tol"])
+    if nb is not None and len(xs) > nb[0]:
+        return (f"iteration bound exceeded: {len(xs)} iterations without convergence, C19Term.within_{nb[3]}_bracket "
+                f"gives at most {nb[0]} (m={nb[1]}, n={nb[2]}) for every ordinate sequence")
     # ordinates stored must be the ones provided at those abscissae
     pts = {case["start"]: case["fs"], case["stop"]: case["fe"]}
     last = {}
@@ -265,14 +402,22 @@ def oracle(case, status, xs, ys, fin):
 def check(rep: Report, tier: str, seed: int) -> None:
     rep.rule = ("cases = (bracket, eps, tol, ordinate source) drawn from one PRNG; sources: smooth/"
                 "discontinuous/flat functions, the solver's exp-gap with eps=tol=1, adversarial ordinate tapes "
-                "(random magnitudes 1e-12..1e12, tied magnitudes, exact zeros), rejecting constructors. "
+                "(random magnitudes 1e-12..1e12, tied magnitudes, exact zeros), rejecting constructors, brackets away from 0 with "
+                "eps > 1/2 under overshoot / greedy / random adversarial tapes (iteration-count oracle). "
                 "non-trivial = at least 2 queried abscissae; distinct = distinct (bracket, tape) bit patterns")
     rep.assumptions = [
-        "termination for brackets touching 0 / interpolation-heavy runs is not a theorem (TerminatesAlways unproved); "
+        "termination for brackets with negative abscissae or eps <= 1/2 is not a theorem (TerminatesAlways is false: "
+        "C19Term.terminatesAlways_false; for 0 <= start and eps > 1/2 see C19Term.within_pos_bracket / within_nonneg_bracket); "
         "validated by running the real class to convergence",
+        "the iteration bound n(2m+2) is a theorem in exact arithmetic; on binary64 runs it is checked with m, n computed "
+        "for ratio and width enlarged by (1 + 2^-30) (see BOUND_SLACK)",
         "binary64 rounding is outside the theorems (they are about the same definitions over an ordered field)",
     ]
     lean_stage(rep, PROP_MODULE, AUDIT, thorough=(tier == "thorough"))
+    ob, cmd = list(rep.obligations), rep.checker_cmd
+    lean_stage(rep, TERM_MODULE, TERM_AUDIT, thorough=(tier == "thorough"))
+    rep.obligations = ob + [o for o in rep.obligations if o not in ob]
+    rep.checker_cmd = cmd + " ; " + rep.checker_cmd
     rng = seeded(seed * 7919 + 19)
     n = 600 if tier == "quick" else 20000
     cases, lines, impl_out, meta = [], [], [], []
@@ -294,6 +439,13 @@ def check(rep: Report, tier: str, seed: int) -> None:
         rep.hist("mode", case["mode"])
         rep.hist("status", status)
         rep.hist("iters_bucket", min(len(xs) // 10 * 10, 100))
+        nb = iter_bound(case["start"], case["stop"], case["eps"], case["tol"]) if status != "reject" else None
+        if nb is not None and nb[0] > 0:
+            rep.hist("bound_applies", case["mode"] + ("/" + case["kind"] if "kind" in case else "") + ":" + nb[3])
+            ratio = len(xs) / nb[0]
+            rep.hist("iters_over_bound_pct", min(int(ratio * 10) * 10, 100))
+            if ratio > rep.extra.get("max_iters_over_bound", (0.0,))[0]:
+                rep.extra["max_iters_over_bound"] = (round(ratio, 3), len(xs), nb[0], case["mode"], case.get("kind"))
     drv = Driver()
     try:
         model_out = drv.batch(lines)
